@@ -1,7 +1,7 @@
 (* wire glue for C16 (mini-Jinja, cell entry points, row loop) *)
 (* WIRE engine=116 fn=dispatch_c16 *)
 From Coq Require Import List NArith ZArith Bool.
-From RPFT Require Import Base.Sexp Base.PyStr Base.Result Gen.Tables Cell.Cell Tmpl.MiniJinja Tmpl.RowLoop.
+From RPFT Require Import Base.Sexp Base.PyStr Base.Result Gen.Tables Cell.Cell Tmpl.MiniJinja Tmpl.RowLoop Tmpl.Insert Tmpl.CellHistory.
 Import ListNotations.
 Local Open Scope N_scope.
 
@@ -176,6 +176,49 @@ Definition enc_event (e : event) : sexp :=
   | EvEmit s => L [A 2; enc_str s]
   end.
 
+(* books (Insert.v): seg = (0 (rows)) | (1 inc name arg); template = (name () | (argname) (segs)) *)
+Definition dec_seg (x : sexp) : option seg :=
+  match x with
+  | L [A 0; L rows] => option_map SRows (dec_list_aux dec_srow rows)
+  | L [A 1; inc; n; arg] =>
+    match dec_cell inc, dec_str n, dec_cell arg with
+    | Some i', Some n', Some a' => Some (SInsert i' n' a')
+    | _, _, _ => None
+    end
+  | _ => None
+  end.
+
+Definition dec_template (x : sexp) : option (str * template) :=
+  match x with
+  | L [n; L a; L segs] =>
+    match dec_str n, dec_list_aux dec_seg segs with
+    | Some n', Some sg =>
+      match a with
+      | [] => Some (n', mk_template sg None)
+      | [an] => option_map (fun an' => (n', mk_template sg (Some an'))) (dec_str an)
+      | _ => None
+      end
+    | _, _ => None
+    end
+  | _ => None
+  end.
+
+Definition enc_seg_texts (sg : seg) : sexp :=
+  match sg with
+  | SRows rs => L [A 0; L (map (fun r => L [enc_str (show_cell (r_inc r)); enc_str (show_cell (r_main r))]) rs)]
+  | SInsert inc n arg => L [A 1; enc_str (show_cell inc); enc_str (show_cell arg)]
+  end.
+
+Definition dec_cp_call (x : sexp) : option cp_call :=
+  match x with
+  | L [oc; c; A mode] =>
+    match dec_octx oc, dec_cell c with
+    | Some octx, Some cl => Some (mk_cp_call octx cl (negb (mode =? 0)))
+    | _, _ => None
+    end
+  | _ => None
+  end.
+
 Definition dispatch_c16 (fn : N) (args : list sexp) : sexp :=
   match fn, args with
   | 0, [] => L [enc_policy env_undefined_policy; enc_policy native_undefined_policy;
@@ -206,6 +249,25 @@ Definition dispatch_c16 (fn : N) (args : list sexp) : sexp :=
          match r with Ok _ => L [A 0] | Err e => s_err (terr_code e) end;
          L (map (fun r => L [enc_str (show_cell (r_inc r)); enc_str (show_cell (r_main r))]) rs)]
     | _, _ => s_badinput
+    end
+  | 4, [A sel; c; L templates; L main] =>
+    match dec_ctx c, dec_list_aux dec_template templates, dec_list_aux dec_seg main with
+    | Some cx, Some bk, Some mn =>
+      let '(pe, pn) := policies sel in
+      let '(log, r) := run_book pe pn bk mn cx in
+      L [L (map enc_event log);
+         match r with Ok _ => L [A 0] | Err e => s_err (terr_code e) end;
+         L (map (fun nt => L (map enc_seg_texts (t_sheet (snd nt)))) bk ++ [L (map enc_seg_texts mn)])]
+    | _, _, _ => s_badinput
+    end
+  | 5, [A sel; L calls] =>
+    (* a history of cells on one CellParser (CellHistory.cp_run) *)
+    match dec_list_aux dec_cp_call calls with
+    | Some cs =>
+      let '(pe, pn) := policies sel in
+      let '(_, outs) := cp_run (mk_cp pe pn) cs in
+      L (map (fun co => L [enc_str (show_cell (cc_cell (fst co))); enc_pres (snd co)]) (combine cs outs))
+    | None => s_badinput
     end
   | _, _ => s_badinput
   end.
